@@ -170,3 +170,36 @@ def receive_loops(p: Program) -> List[Tuple[FunctionInfo, ast.While]]:
 
 def path_text(pa, limit=14) -> List[str]:
     return [repr(e) for e in pa.events if e.kind not in ("getprop", "loop-iter", "loop-back", "loop-enter")][:limit]
+
+
+def backing_field(p: Program, ci, prop: str) -> str:
+    """Name of the instance attribute a public read-only view returns: the first 'self.<attr>' mentioned in the
+    return expression of property <prop> of class ci (e.g. Element.value -> the field that holds the value).
+    Rules address private state through this, never through a literal private name."""
+    if isinstance(ci, str):
+        ci = p.cls(ci)
+    g = ci.find_getter(prop)
+    if g is None:
+        raise Undecided(f"{ci.name} has no property '{prop}'")
+    for st in walk_no_nested(g.node):
+        if isinstance(st, ast.Return) and st.value is not None:
+            for n in ast.walk(st.value):
+                if isinstance(n, ast.Attribute) and isinstance(n.value, ast.Name) and n.value.id == "self":
+                    return n.attr
+    raise Undecided(f"property {ci.name}.{prop} does not return an attribute of self")
+
+
+def public_get(it, obj, attr, frame=None):
+    """Value of a public property/attribute of an abstract object, read by interpreting the getter."""
+    from ..absint import Frame
+    fr = frame or Frame(None, obj.cls.module, {})
+    saved = dict(it.opts)
+    base = it.opts.get("inline", lambda fi, node: False)
+    it.opts["inline"] = lambda fi, node: fi.kind == "getter" or base(fi, node)
+    n = len(it.events)
+    try:
+        return it.get_attr(obj, attr, None, fr)
+    finally:
+        del it.events[n:]
+        it.opts.clear()
+        it.opts.update(saved)
